@@ -1,50 +1,91 @@
 //@@ module: engine/search/time_control.rs
 //@@ tag: c14
 //@@ needs: chess__board@sym.rs chess__game@sym.rs
-use crate::chess::board::verif_kani_sym as sym;
-use crate::chess::game::verif_kani_symgame as symgame;
-use crate::engine::search::Clocks;
+//@@ noglob: Duration / Instant and the types built from them are re-declared here
+// TimeStrategy (struct + whole impl), Control, and the TimeControl / Clocks types are copied VERBATIM from /repo on every
+// run into this module, where the names `Duration` and `Instant` are bound to stand-ins:
+//   Duration = exact integer nanoseconds in a u64 (ASSUMED model of std::time::Duration: exact ns arithmetic; values here
+//              stay below 2^49 ns so no std overflow path is reachable), with mul_f32 given by a CONTRACT implied by exact
+//              real multiplication (machine f32 treated as mathematical);
+//   Instant  = a ghost clock whose now()/elapsed() are arbitrary (or panic, for the clock-independence obligation).
+// CBMC cannot carry the real Duration (u128 nanos, 64-bit div/mod by 10^9): two 30-minute time-outs, see DESIGN.
+use crate::chess::game::Game;
+use crate::chess::player::Player;
+use crate::engine::options::EngineOptions;
+use crate::engine::search::params;
+use std::sync::atomic::{AtomicBool, Ordering};
+use std::sync::Arc;
 
-// ---- stand-ins (kani::stub) ----------------------------------------------------------------------------------
-/// CONTRACT STAND-IN for Duration::mul_f32 with the engine's four constants.  Machine f32 arithmetic is TREATED AS
-/// MATHEMATICAL (listed as an assumption; the real function differs from the exact product by a relative 2^-23), and of
-/// the exact product floor(c * d) only these facts are used -- each is implied by it:
-///   c = 0.5  : exactly half (integer division by 2);   c = 0.033, 0.75 : some value <= d;   c = 3.0 : some value in [d, 3d]
-pub fn mul_f32_exact(d: Duration, rhs: f32) -> Duration {
-    let n = d.as_nanos() as u64; // harness bounds keep this below 2^47
-    let r: u64 = kani::any();
-    if rhs == 0.5 {
-        kani::assume(r == n / 2);
-    } else if rhs == 0.033 || rhs == 0.75 {
-        kani::assume(r <= n);
-    } else if rhs == 3.0 {
-        kani::assume(n <= r && r <= 3 * n);
-    } else {
-        panic!("mul_f32 called with a constant the contract stand-in does not know")
+#[derive(Debug, Clone, Copy, PartialEq, Eq, PartialOrd, Ord, Default)]
+pub struct Duration(pub u64);
+impl Duration {
+    pub fn from_millis(ms: u64) -> Self {
+        Duration(ms * 1_000_000)
     }
-    Duration::from_nanos(r)
+    pub fn from_nanos(ns: u64) -> Self {
+        Duration(ns)
+    }
+    pub fn saturating_sub(self, rhs: Self) -> Self {
+        Duration(self.0.saturating_sub(rhs.0))
+    }
+    /// CONTRACT implied by exact real multiplication with the engine's four constants:
+    ///   x0.5 = exact half;  x0.033, x0.75: some value <= d;  x3.0: some value in [d, 3d]
+    pub fn mul_f32(self, rhs: f32) -> Self {
+        let n = self.0;
+        let r: u64 = kani::any();
+        if rhs == 0.5 {
+            kani::assume(r == n / 2);
+        } else if rhs == 0.033 || rhs == 0.75 {
+            kani::assume(r <= n);
+        } else if rhs == 3.0 {
+            kani::assume(n <= r && r <= 3 * n);
+        } else {
+            panic!("mul_f32 called with a constant the contract does not know")
+        }
+        Duration(r)
+    }
 }
-/// CONTRACT of `Duration / u32` as used for "time per remaining move": panics on a zero divisor, otherwise SOME
-/// duration not larger than the dividend (the limits proved below hold for every such value)
-pub fn div_u32_contract(d: Duration, rhs: u32) -> Duration {
-    assert!(rhs != 0, "division of the clock by moves-to-go == 0");
-    let q: u64 = kani::any();
-    kani::assume(q <= d.as_nanos() as u64);
-    Duration::from_nanos(q)
+impl std::ops::Div<u32> for Duration {
+    type Output = Self;
+    fn div(self, rhs: u32) -> Self {
+        assert!(rhs != 0, "division of the clock by moves-to-go == 0");
+        Duration(self.0 / rhs as u64)
+    }
 }
-pub fn instant_zero() -> Instant {
-    unsafe { std::mem::zeroed() }
+impl std::ops::Add for Duration {
+    type Output = Self;
+    fn add(self, rhs: Self) -> Self {
+        Duration(self.0 + rhs.0)
+    }
 }
-pub fn instant_unreachable() -> Instant {
-    panic!("the wall clock must not be read on this path")
+
+pub static mut CLOCK_READS: u32 = 0;
+pub static mut CLOCK_FORBIDDEN: bool = false;
+#[derive(Clone, Copy)]
+pub struct Instant;
+impl Instant {
+    pub fn now() -> Self {
+        unsafe {
+            assert!(!CLOCK_FORBIDDEN, "the wall clock must not be read on this path");
+            CLOCK_READS += 1;
+        }
+        Instant
+    }
+    pub fn elapsed(&self) -> Duration {
+        unsafe {
+            assert!(!CLOCK_FORBIDDEN, "the wall clock must not be read on this path");
+            CLOCK_READS += 1;
+        }
+        Duration(kani::any())
+    }
 }
-pub fn elapsed_any(_i: &Instant) -> Duration {
-    let ns: u64 = kani::any();
-    Duration::from_nanos(ns)
-}
-pub fn elapsed_unreachable(_i: &Instant) -> Duration {
-    panic!("the wall clock must not be read on this path")
-}
+
+//@@ item: engine/search/mod.rs :: enum TimeControl
+//@@ item: engine/search/mod.rs :: struct Clocks
+//@@ item: engine/search/time_control.rs :: struct TimeStrategy
+//@@ item: engine/search/time_control.rs :: struct Control
+//@@ item: engine/search/time_control.rs :: impl Control
+//@@ item: engine/search/time_control.rs :: impl TimeStrategy
 
 const MAX_NS: u64 = 100_000_000_000_000; // 10^14 ns ~ 27 hours
 
@@ -52,26 +93,27 @@ fn any_duration_opt() -> Option<Duration> {
     if kani::any() {
         let ns: u64 = kani::any();
         kani::assume(ns <= MAX_NS);
-        Some(Duration::from_nanos(ns))
+        Some(Duration(ns))
     } else {
         None
     }
+}
+fn any_game() -> Game {
+    let mut g = crate::chess::game::verif_kani_symgame::game_with_board(crate::chess::board::verif_kani_sym::empty_board());
+    g
 }
 
 //@ obligation: C14.limits.clocks
 //@ domain: complete
 //@ functions: engine/search/time_control.rs::TimeStrategy::new
-//@ timeout: 1800
-//@ mem_gb: 8
-//@ note: the REAL TimeStrategy::new for every clock situation (remaining and increment up to 10^14 ns for both sides, present or absent; moves-to-go absent or >= 1; Move Overhead in its advertised range 0..=1000 ms with 2*overhead <= remaining; either side to move): soft <= hard and 2*hard <= remaining - overhead; no arithmetic panic (division by moves-to-go, Duration overflow)
-//@ assumes: Duration::mul_f32 replaced by a contract implied by exact real multiplication (x0.5 = exact half; x0.033, x0.75 <= d; d <= x3.0 <= 3d): machine f32 treated as mathematical; Duration / u32 replaced by its contract (some value <= dividend, panic on 0); Instant::now stubbed
+//@ timeout: 900
+//@ mem_gb: 6
+//@ note: TimeStrategy::new for every clock situation (remaining and increment up to 10^14 ns for both sides, present or absent; moves-to-go absent or >= 1; Move Overhead in its advertised range 0..=1000 ms with 2*overhead <= remaining; either side to move): soft <= hard and 2*hard <= remaining - overhead; no arithmetic panic (division by moves-to-go)
+//@ assumes: std::time::Duration modelled as exact integer nanoseconds; Duration::mul_f32 replaced by a contract implied by exact real multiplication (machine f32 treated as mathematical); Instant::now ghost
 #[kani::proof]
 #[kani::unwind(4)]
-#[kani::stub(std::time::Duration::mul_f32, mul_f32_exact)]
-#[kani::stub(<std::time::Duration as std::ops::Div<u32>>::div, div_u32_contract)]
-#[kani::stub(std::time::Instant::now, instant_zero)]
 fn vk_c14_limits_clocks() {
-    let game = symgame::game_with_board(sym::empty_board());
+    let game = any_game();
     let clocks = Clocks {
         white_clock: any_duration_opt(),
         black_clock: any_duration_opt(),
@@ -89,12 +131,12 @@ fn vk_c14_limits_clocks() {
     };
     // a GUI always sends the mover's clock; overhead at most half of it
     kani::assume(ours.is_some());
-    let remaining = ours.unwrap().as_nanos() as u64;
+    let remaining = ours.unwrap().0;
     let overhead = overhead_ms as u64 * 1_000_000;
     kani::assume(2 * overhead <= remaining);
     let tc = TimeControl::Clocks(clocks);
     let (ts, _control) = TimeStrategy::new(&game, &tc, &options);
-    let (soft, hard) = (ts.soft_stop.as_nanos() as u64, ts.hard_stop.as_nanos() as u64);
+    let (soft, hard) = (ts.soft_stop.0, ts.hard_stop.0);
     kani::cover!(hard > 0 && soft < hard);
     kani::cover!(game.player == Player::Black && hard > 1_000_000_000);
     assert!(soft <= hard);
@@ -110,28 +152,23 @@ fn vk_c14_limits_clocks() {
 //@ note: a fixed move time is used as given: soft == hard == movetime, for every movetime and overhead; with no limit both are zero and never consulted (C12.no_clock)
 #[kani::proof]
 #[kani::unwind(4)]
-#[kani::stub(std::time::Duration::mul_f32, mul_f32_exact)]
-#[kani::stub(std::time::Instant::now, instant_zero)]
 fn vk_c14_limits_exact_time() {
-    let game = symgame::game_with_board(sym::empty_board());
-    let ns: u64 = kani::any();
-    let t = Duration::from_nanos(ns);
+    let game = any_game();
+    let t = Duration(kani::any());
     let mut options = EngineOptions::default();
     options.move_overhead = kani::any();
     kani::assume(options.move_overhead <= 1000);
     let (ts, _c) = TimeStrategy::new(&game, &TimeControl::ExactTime(t), &options);
-    kani::cover!(ns > 5);
+    kani::cover!(t.0 > 5);
     assert!(ts.soft_stop == t && ts.hard_stop == t);
 }
 
 fn any_strategy(tc: TimeControl) -> TimeStrategy {
-    let soft: u64 = kani::any();
-    let hard: u64 = kani::any();
     TimeStrategy {
         time_control: tc,
-        started_at: instant_zero(),
-        soft_stop: Duration::from_nanos(soft),
-        hard_stop: Duration::from_nanos(hard),
+        started_at: Instant,
+        soft_stop: Duration(kani::any()),
+        hard_stop: Duration(kani::any()),
         next_check_at: kani::any(),
         force_stop: Arc::new(AtomicBool::new(kani::any())),
     }
@@ -146,13 +183,11 @@ fn any_strategy(tc: TimeControl) -> TimeStrategy {
 //@ note: for every state of the strategy and every elapsed time: should_stop(n) is false without reading flag or clock while n < next_check_at; otherwise it is true whenever the stop flag is set, and else true iff the limit of the active time control is exceeded (never for Infinite), re-arming the next poll; should_start_new_search(1) is always true (depth 1 is always searched) and false for deeper iterations once the flag is set; Control::stop sets the flag the strategy reads
 #[kani::proof]
 #[kani::unwind(4)]
-#[kani::stub(std::time::Instant::elapsed, elapsed_any)]
 fn vk_c09_should_stop_contract() {
     let which: u8 = kani::any();
-    let exact: u64 = kani::any();
     let tc = match which % 3 {
         0 => TimeControl::Infinite,
-        1 => TimeControl::ExactTime(Duration::from_nanos(exact)),
+        1 => TimeControl::ExactTime(Duration(kani::any())),
         _ => TimeControl::Clocks(Clocks { white_clock: None, black_clock: None, white_increment: None, black_increment: None, moves_to_go: None }),
     };
     let mut ts = any_strategy(tc);
@@ -169,11 +204,12 @@ fn vk_c09_should_stop_contract() {
     } else if which % 3 == 0 {
         assert!(start);
     }
+    let reads0 = unsafe { CLOCK_READS };
     let r = ts.should_stop(n);
     kani::cover!(r && !flag);
     kani::cover!(!r && n >= next0);
     if n < next0 {
-        assert!(!r && ts.next_check_at == next0);
+        assert!(!r && ts.next_check_at == next0 && unsafe { CLOCK_READS } == reads0);
     } else if flag {
         assert!(r);
     } else {
@@ -198,13 +234,12 @@ fn vk_c09_should_stop_contract() {
 //@ functions: engine/search/time_control.rs::TimeStrategy::should_stop, engine/search/time_control.rs::TimeStrategy::should_start_new_search
 //@ timeout: 900
 //@ mem_gb: 4
-//@ note: with no time limit (fixed-depth / infinite search) the two decisions of the time strategy NEVER read the wall clock (Instant::now / elapsed are replaced by panicking functions and are proved unreachable) and are functions of the stop flag and the node count only -- so a fixed-depth search cannot depend on timing or machine load through them
+//@ note: with no time limit (fixed-depth / infinite search) the two decisions of the time strategy NEVER read the wall clock (the ghost clock panics when read and is proved unreachable) and are functions of the stop flag and the node count only -- so a fixed-depth search cannot depend on timing or machine load through them
 #[kani::proof]
 #[kani::unwind(4)]
-#[kani::stub(std::time::Instant::elapsed, elapsed_unreachable)]
-#[kani::stub(std::time::Instant::now, instant_unreachable)]
 fn vk_c12_no_clock_infinite() {
     let mut ts = any_strategy(TimeControl::Infinite);
+    unsafe { CLOCK_FORBIDDEN = true; }
     let flag = ts.force_stop.load(Ordering::Relaxed);
     let next0 = ts.next_check_at;
     let n: u64 = kani::any();
@@ -217,18 +252,16 @@ fn vk_c12_no_clock_infinite() {
 
 //@ obligation: C14.canary.limits
 //@ canary: true
-//@ timeout: 1800
-//@ mem_gb: 8
+//@ timeout: 900
+//@ mem_gb: 4
 #[kani::proof]
 #[kani::unwind(4)]
-#[kani::stub(std::time::Duration::mul_f32, mul_f32_exact)]
-#[kani::stub(std::time::Instant::now, instant_zero)]
 fn vk_c14_canary_limits() {
-    let game = symgame::game_with_board(sym::empty_board());
+    let game = any_game();
     let ns: u64 = kani::any();
     kani::assume(ns <= MAX_NS);
-    let clocks = Clocks { white_clock: Some(Duration::from_nanos(ns)), black_clock: Some(Duration::from_nanos(ns)), white_increment: None, black_increment: None, moves_to_go: None };
+    let clocks = Clocks { white_clock: Some(Duration(ns)), black_clock: Some(Duration(ns)), white_increment: None, black_increment: None, moves_to_go: None };
     let options = EngineOptions::default();
     let (ts, _c) = TimeStrategy::new(&game, &TimeControl::Clocks(clocks), &options);
-    assert!(ts.hard_stop.as_nanos() as u64 * 100 <= ns); // must FAIL: hard is about a tenth of the clock
+    assert!(ts.hard_stop.0 * 100 <= ns); // must FAIL: hard can be a multiple of the base time
 }
